@@ -1352,7 +1352,10 @@ macro_rules! skip_iterator_iter_base {
         // It's contiguous if we don't skip over any values.
         // IE, the digit separator flags for the iterator over
         // the digits doesn't skip any values.
-        const IS_CONTIGUOUS: bool = $format & flags::$mask == 0;
+        // NOTE: Without a digit separator character there is nothing to skip,
+        // whatever the flags say: this must agree with `Bytes::IS_CONTIGUOUS`.
+        const IS_CONTIGUOUS: bool = $format & flags::$mask == 0
+            || NumberFormat::<{ $format }>::DIGIT_SEPARATOR == 0;
 
         #[inline(always)]
         fn get_buffer(&self) -> &'a [u8] {
